@@ -739,6 +739,49 @@ func checkC01(c *vlib.Ctx) (string, string) {
 		c.States.Add(apiLists)
 		famInfo["API-pass"] = map[string]any{"alphabet": len(apiUnion), "max_list_length": maxLen, "lists": apiLists}
 	}
+	// every port number: as an origin against an any-port pattern and against one discrete port, and as a pattern
+	// that must match itself (and nothing else among its neighbours)
+	{
+		var tree origins.Tree
+		for _, raw := range []string{"https://a.b:*", "http://a.b:8080", "ab://*.c.d:*", "ab://c.d:70"} {
+			p, err := origins.ParsePattern(raw)
+			if err != nil {
+				ck.Report(c01Case{[]string{raw}, raw, "tree"}, vlib.Failf("valid pattern %q rejected: %v", raw, err))
+				return levelMC, rule
+			}
+			tree.Insert(&p)
+		}
+		pats := []string{"https://a.b:*", "http://a.b:8080", "ab://*.c.d:*", "ab://c.d:70"}
+		c.ParRange(65535, 1024, "C01 port sweep", func(i int64) {
+			port := i + 1
+			for _, o := range []string{fmt.Sprintf("https://a.b:%d", port), fmt.Sprintf("http://a.b:%d", port), fmt.Sprintf("ab://x.c.d:%d", port), fmt.Sprintf("ab://c.d:%d", port), fmt.Sprintf("https://x.a.b:%d", port)} {
+				po, ok := origins.Parse(o)
+				if got, want := ok && tree.Contains(&po), ref.DenotedByAny(pats, o); got != want {
+					ck.Report(c01Case{pats, o, "tree"}, vlib.Failf("port sweep: Contains(%q)=%t (parsed=%t), the patterns %q denote it: %t", o, got, ok, pats, want))
+				}
+			}
+			self := fmt.Sprintf("https://e.f:%d", port)
+			if port == 443 {
+				self = fmt.Sprintf("http://e.f:%d", port)
+			}
+			sp, err := origins.ParsePattern(self)
+			if err != nil {
+				ck.Report(c01Case{[]string{self}, self, "tree"}, vlib.Failf("port sweep: valid pattern %q rejected: %v", self, err))
+				return
+			}
+			var t2 origins.Tree
+			t2.Insert(&sp)
+			for _, o := range []string{self, fmt.Sprintf("https://e.f:%d", port%65535+1), "https://e.f"} {
+				po, ok := origins.Parse(o)
+				if got, want := ok && t2.Contains(&po), ref.DenotedByAny([]string{self}, o); got != want {
+					ck.Report(c01Case{[]string{self}, o, "tree"}, vlib.Failf("port sweep: pattern %q, Contains(%q)=%t, want %t", self, o, got, want))
+				}
+			}
+		})
+		c.States.Add(65535)
+		c.Transitions.Add(65535 * 8)
+		famInfo["port-sweep"] = map[string]any{"ports": 65535, "probes_per_port": 8}
+	}
 	c.Set("families", famInfo)
 	return levelMC, rule
 }
